@@ -26,12 +26,12 @@ type Op struct {
 	Kind   string `json:"kind"` // matryer: call | calls | reset | resetall | setfunc ; testify: expect | call | cleanup | assert
 	Method string `json:"method,omitempty"`
 	Seed   uint64 `json:"seed,omitempty"`
-	Mode   string `json:"mode,omitempty"`   // setfunc: echo | nil | panic
-	Style  string `json:"style,omitempty"`  // expect: return | run+return | runandreturn | providers | wholefunc | none | run
-	Times  string `json:"times,omitempty"`  // expect: "" | once | twice | times3 | maybe
-	Match  string `json:"match,omitempty"`  // expect: exact | anything | mixed
-	Ref    int    `json:"ref,omitempty"`    // call: index (1-based) of the expect op (same task list order) whose arguments to use; 0 = fresh arguments (no expectation); -k = fresh arguments shaped like Setup[k-1] (an Anything-matched shared expectation)
-	NArgs  int    `json:"nargs,omitempty"`  // number of variadic elements (-1 = draw)
+	Mode   string `json:"mode,omitempty"`  // setfunc: echo | nil | panic
+	Style  string `json:"style,omitempty"` // expect: return | run+return | runandreturn | providers | wholefunc | none | run
+	Times  string `json:"times,omitempty"` // expect: "" | once | twice | times3 | maybe
+	Match  string `json:"match,omitempty"` // expect: exact | anything | mixed
+	Ref    int    `json:"ref,omitempty"`   // call: index (1-based) of the expect op (same task list order) whose arguments to use; 0 = fresh arguments (no expectation); -k = fresh arguments shaped like Setup[k-1] (an Anything-matched shared expectation)
+	NArgs  int    `json:"nargs,omitempty"` // number of variadic elements (-1 = draw)
 }
 
 type Case struct {
